@@ -1,5 +1,6 @@
 import G3D.Proofs.Typed
 import G3D.Proofs.ExactAll
+import G3D.Proofs.AlgebraEuler
 /-! # C04 (continued) — documented result types, for ALL operands of all 49 type pairs -/
 namespace G3D.Props.C04
 open G3D G3D.Dispatch G3D.Extracted
@@ -20,4 +21,22 @@ theorem never_raises_admissible (a b : Obj) (ha : OpOK a) (hb : OpOK b) (hnb : N
     ∃ o, inter a b = .ok o ∧ ResOK o := by
   obtain ⟨o, ho, hw, _⟩ := interRef_exactOK a b ha hb hnb
   exact ⟨o, by rw [inter_eq_ref]; exact ho, hw⟩
+
+/-- polyhedron × polyhedron: the ONLY exception `intersection` can raise for two admissible polyhedra is the `ValueError` of
+    the Euler check in `ConvexPolyhedron(collected faces)`; with Euler's formula, all 49 pairs never raise -/
+theorem never_raises_all_of_euler (hE : EulerAll) (a b : Obj) (ha : OpOK a) (hb : OpOK b) :
+    ∃ o, inter a b = .ok o ∧ ResOK' o := by
+  obtain ⟨o, ho, hw, _⟩ := interRef_exact_all hE a b ha hb
+  exact ⟨o, by rw [inter_eq_ref]; exact ho, hw⟩
+theorem polyhedron_polyhedron_raises_only_euler (A B : Polyhedron) (hA : A.ExactHyp) (hB : B.ExactHyp) (e : BErr)
+    (h : inter (.polyhedron A) (.polyhedron B) = .error e) :
+    e = .ctor .value ∧ ∃ p, K4.Parts2 A B p ∧ 2 ≤ p.gons.length ∧ K4.eulerOf p.gons ≠ 2 := by
+  rw [inter_eq_ref] at h
+  change interPolyhedronPolyhedron A B = .error e at h
+  obtain ⟨p, hp, hc⟩ := interPolyhedronPolyhedron_ok_or_euler A B hA hB
+  rcases hc with ⟨_, o, ho, _⟩ | ⟨_, _, R, _, ho, _⟩ | ⟨h2, hne, _, he⟩
+  · rw [ho] at h; cases h
+  · rw [ho] at h; cases h
+  · rw [he] at h; cases h; exact ⟨rfl, p, hp, h2, hne⟩
+
 end G3D.Props.C04
